@@ -39,6 +39,9 @@ func LayoutByTag(tag string) LayoutDef {
 	if tag == "LP" {
 		return LP
 	}
+	if tag == "L10" { // smallest three-level layout (6 slots): used where contents are enumerated per slot
+		return L("L10", "1s:2s,2s:4s,4s:8s")
+	}
 	panic("no layout " + tag)
 }
 
